@@ -7,7 +7,10 @@ use crate::common::*;
 use std::io::{BufRead, Write};
 use std::time::Instant;
 
-pub const K_DEPTH: usize = 160;
+/// bound on the decoded nesting depth of an accepted document: one header path (< limit) plus one counted nest (< limit)
+pub fn k_depth() -> usize {
+    2 * calibrated_limit()
+}
 const STACK: usize = 2 * 1024 * 1024;
 
 #[derive(Clone, Copy, Debug, PartialEq)]
@@ -108,9 +111,10 @@ impl Case {
 }
 
 pub fn cases(tier: Tier) -> Vec<Case> {
+    let l = calibrated_limit();
     let ds: Vec<usize> = match tier {
-        Tier::Quick => vec![1, 2, 40, 79, 80, 200],
-        Tier::Thorough => vec![1, 2, 39, 40, 78, 79, 80, 81, 200, 3000],
+        Tier::Quick => vec![1, 2, l / 2, l - 1, l, 2 * l + 40],
+        Tier::Thorough => vec![1, 2, l / 2 - 1, l / 2, l - 2, l - 1, l, l + 1, 2 * l + 40, 3000.max(4 * l)],
     };
     let mut headers = vec![(HKind::None, 0)];
     for d in &ds {
@@ -135,7 +139,7 @@ pub fn cases(tier: Tier) -> Vec<Case> {
     }
     if tier == Tier::Thorough {
         // three layers over a reduced depth set: the alternations that multiply
-        let small = [2usize, 40, 79];
+        let small = [2usize, l / 2, l - 1];
         for a in kinds {
             for b in kinds {
                 for c in kinds {
@@ -165,7 +169,7 @@ pub fn cases(tier: Tier) -> Vec<Case> {
     }
     // the ten-fold alternation of DESIGN D4 and its relatives
     for reps in [2usize, 3, 5, 10] {
-        for d in [40usize, 79] {
+        for d in [l / 2, l - 1] {
             out.push(Case { header: (HKind::None, 0), dotted: 1, values: vec![(VKind::DottedInInline, d); reps] });
             out.push(Case { header: (HKind::Std, d), dotted: d, values: vec![(VKind::DottedInInline, d); reps] });
         }
@@ -399,8 +403,8 @@ fn run_build(rep: &mut Report, tier: Tier, exe: &std::path::Path, build: &'stati
             acc.bump("rejected-recursion-limit");
             acc.nontrivial(label.as_bytes());
             if let Some(d) = single {
-                if d <= 79 {
-                    acc.viol("U-nest", label, None, format!("a single construct nested {} deep (below the limit) was rejected", d));
+                if d < calibrated_limit() {
+                    acc.viol("U-nest", label, None, format!("a single construct nested {} deep (below the limit the library enforces on its reference constructs) was rejected", d));
                 }
             }
             continue;
@@ -415,11 +419,11 @@ fn run_build(rep: &mut Report, tier: Tier, exe: &std::path::Path, build: &'stati
         if v.starts_with("ACC-SERDE-REJECTS") {
             acc.viol("U-nest", label.clone(), None, "toml_edit accepts but toml::from_str rejects".into());
         }
-        if depth > K_DEPTH {
-            acc.viol("U-nest", label.clone(), multiplicative_class(c), format!("accepted with decoded nesting depth {} > K = {}", depth, K_DEPTH));
+        if depth > k_depth() {
+            acc.viol("U-nest", label.clone(), multiplicative_class(c), format!("accepted with decoded nesting depth {} > K = {}", depth, k_depth()));
         }
         if let Some(d) = single {
-            if d >= 80 {
+            if d >= calibrated_limit() {
                 acc.viol("U-nest", label, None, format!("a single construct nested {} deep (at or beyond the limit) was accepted", d));
             }
         }
@@ -432,7 +436,8 @@ fn run_build(rep: &mut Report, tier: Tier, exe: &std::path::Path, build: &'stati
 /// the known multiplicative class (D4): every layer is individually below the limit, depths multiply across
 /// alternating dotted keys and inline tables / arrays
 fn multiplicative_class(c: &Case) -> Option<&'static str> {
-    let all_below = c.header.1 <= 79 && c.dotted <= 79 && c.values.iter().all(|(_, d)| *d <= 79);
+    let l = calibrated_limit();
+    let all_below = c.header.1 < l && c.dotted < l && c.values.iter().all(|(_, d)| *d < l);
     let has_dotted = c.dotted > 1 || c.values.iter().any(|(k, d)| *k == VKind::DottedInInline && *d > 1);
     if all_below && has_dotted {
         Some("dotted-key-depth-not-counted")
@@ -446,10 +451,10 @@ pub fn c05(tier: Tier) -> i32 {
         "C05",
         tier,
         "exploration",
-        "every combination of (header kind x depth) x (dotted key depth) x (<= 2-3 value constructs from {array, inline table, dotted key inside inline table} x depth) over the depth set around the limit; each document is parsed, printed, debug-printed, cloned, dropped, despanned and deserialized on a 2 MiB thread in a sacrificial process, in an opt-level-0 build and in a release build; oracle: the worker survives, rejection only with the recursion-limit error, accepted trees no deeper than K = 160, single constructs accepted below 80 and rejected from 80; non-trivial = distinct cases rejected for the limit or accepted with depth > 2",
+        "every combination of (header kind x depth) x (dotted key depth) x (<= 2-3 value constructs from {array, inline table, dotted key inside inline table} x depth) over the depth set around the limit; each document is parsed, printed, debug-printed, cloned, dropped, despanned and deserialized on a 2 MiB thread in a sacrificial process, in an opt-level-0 build and in a release build; oracle: the worker survives, rejection only with the recursion-limit error, accepted trees no deeper than K = 2 x L, single constructs accepted below L and rejected from L on, where L is the limit the library is observed to enforce on four reference constructs (80); non-trivial = distinct cases rejected for the limit or accepted with depth > 2",
     );
     rep.assumptions = vec![
-        "K = 160 = one header path (< 80) plus one counted nest (< 80); measured: a tree of that depth is handled on 2 MiB in a debug build".into(),
+        "K = 2 x L = one header path (< L) plus one counted nest (< L); L is observed, not assumed (the largest first-refused depth among nested arrays, nested inline tables, a top-level dotted key and a dotted key in an inline table), so a changed constant moves the expectations while a limit lowered for one construct only still shows; measured: a tree of depth 160 is handled on 2 MiB in a debug build".into(),
         "the property quantifies over all inputs; this decides the bounded instance over the stated construct combinations".into(),
     ];
     let exe = match std::env::current_exe() {
